@@ -156,7 +156,7 @@ static void perturb(void)
 	}
 }
 
-static vrt_rec_t *newrec(void)
+static vrt_rec_t *newrec_p(int progress)
 {
 	if (g_n >= g_cap) { g_overflow = 1; return NULL; }
 	vrt_rec_t *r = &g_rec[g_n++];
@@ -164,9 +164,10 @@ static vrt_rec_t *newrec(void)
 	r->seq = ++g_seq;
 	r->tid = vrt_tid();
 	r->obj = -1;
-	atomic_fetch_add(&g_progress, 1);
+	if (progress) atomic_fetch_add(&g_progress, 1);
 	return r;
 }
+static vrt_rec_t *newrec(void) { return newrec_p(1); }
 
 static void rt_pre(struct dispatch_verif_site_s *s, const volatile void *addr)
 {
@@ -251,7 +252,8 @@ static void rt_probe(const char *kind, const volatile void *obj, long a, long b)
 	pthread_mutex_lock(&g_lock);
 	o = obj ? find_obj(obj, &off) : -1;      /* decided under the lock, see rt_pre */
 	if ((g_probe_filter && o < 0) || atomic_load(&g_paused)) { pthread_mutex_unlock(&g_lock); return; }
-	vrt_rec_t *r = newrec();
+	/* a probe on an object nobody registered (the manager's 1 Hz pool-monitor timer) is not progress of the test */
+	vrt_rec_t *r = newrec_p(o >= 0);
 	if (r) { r->kind = VRT_PROBE; r->name = kind; r->addr = obj; r->obj = o; r->off = off; r->a = a; r->b = b; }
 	t_last_load_addr = NULL;
 	pthread_mutex_unlock(&g_lock);
